@@ -25,10 +25,10 @@ for p in PROPS:
         rows.append(f"| {r} | {n}{extra} | {esc(txt)} |")
         nrules += 1
     total += cov['obligations']
-rules_tbl = '\n'.join(rows)
+rules_tbl = '| rule | instances discharged today | what is decided |\n|---|---|---|\n' + '\n'.join(rows)
 kf = json.load(open(os.path.join(HERE, 'known_findings.json')))['findings']
-fx = '\n'.join(f"| {f['property']} | {f['rule']} | `{f.get('commit', '')}` | {esc(f.get('what_failed') or f.get('what', ''))[:260]} | {f.get('demonstration', '')} |" for f in kf if f['status'] == 'fixed')
-kn = '\n'.join(f"| {f['property']} | {f['rule']} | `{esc(f['key'])[:80]}` | {esc(f.get('what', ''))[:330]} | {f.get('demonstration', '')} |" for f in kf if f['status'] == 'known')
+fx = '| property | rule | commit | what failed | demonstration |\n|---|---|---|---|---|\n' + '\n'.join(f"| {f['property']} | {f['rule']} | `{f.get('commit', '')}` | {esc(f.get('what_failed') or f.get('what', ''))[:260]} | {f.get('demonstration', '')} |" for f in kf if f['status'] == 'fixed')
+kn = '| property | rule | instance key | what fails and why it is not repaired here | demonstration |\n|---|---|---|---|---|\n' + '\n'.join(f"| {f['property']} | {f['rule']} | `{esc(f['key'])[:80]}` | {esc(f.get('what', ''))[:330]} | {f.get('demonstration', '')} |" for f in kf if f['status'] == 'known')
 p = os.path.join(HERE, 'DESIGN.md')
 s = open(p).read()
 
